@@ -13,7 +13,8 @@ RECURSIVE Inter(_, _)
 Inter(u, d) == IF u = <<>> THEN {d} ELSE IF d = <<>> THEN {u}
                ELSE {<<Head(u)>> \o x : x \in Inter(Tail(u), d)} \cup {<<Head(d)>> \o x : x \in Inter(u, Tail(d))}
 Scheds == UNION { Inter(Prog("c", a, s), Prog("t", b, t)) : a \in 0..N, b \in 0..N, s \in BOOLEAN, t \in BOOLEAN }
-Cases == [sched : Scheds, early : BOOLEAN, tearly : BOOLEAN]
+\* pause: the tunnel stays silent for longer than the read-header limit before the schedule continues
+Cases == [sched : Scheds, early : BOOLEAN, tearly : BOOLEAN, pause : BOOLEAN]
 
 VARIABLE c
 Init == c \in (IF Sample = 0 THEN Cases ELSE RandomSubset(Sample, Cases))
